@@ -230,7 +230,7 @@ func (r *c35Run) withSnapshots(phase, dir string, f func() error) (err error, op
 func c35Inputs(dir string, c *c35Case) []string {
 	var out []string
 	for i := range c.Corpus.Repos {
-		out = append(out, filepath.Join(dir, fmt.Sprintf("%s_v16.00000.zoekt", sanitizeC35(c.Corpus.Repos[i].Name))))
+		out = append(out, filepath.Join(dir, fmt.Sprintf("%s_%d_v16.00000.zoekt", sanitizeC35(c.Corpus.Repos[i].Name), c.Corpus.Repos[i].ID)))
 	}
 	return out
 }
